@@ -88,10 +88,13 @@ class BaseTranslateFilter:
             raise TranslationValueError(str(err), token=None) from err
 
     def _resolve_translations(self, context: RenderContext) -> Translations:
-        return cast(
-            Translations,
-            context.resolve(self.translations_var, self.default_translations),
+        translations = context.resolve(
+            self.translations_var, self.default_translations
         )
+        if not hasattr(translations, "gettext"):
+            # Ordinary data that happens to use the same name, not a message catalog.
+            return self.default_translations
+        return cast(Translations, translations)
 
 
 class Translate(BaseTranslateFilter, TranslatableFilter):
